@@ -628,6 +628,30 @@ def rule_allpair(prog, rep, tier, anchor="gen.gen"):
             elif isinstance(d, ast.keyword) and d.arg and d.arg.endswith("_name"):
                 naming.append(d.value)
     if not naming:
+        # the `*_name` arguments are assembled by a helper of the region: map its parameter back to the call-site argument
+        for root in elt_roots:
+            for call in ast.walk(root):
+                if not isinstance(call, ast.Call):
+                    continue
+                for t in prog.resolve_expr_fn(call.func, call):
+                    if not (isinstance(t, FunctionInfo) and t in helpers):
+                        continue
+                    pn = t.params()
+                    inner = []
+                    for d in ast.walk(t.node):
+                        if isinstance(d, ast.Dict):
+                            inner += [v for k, v in zip(d.keys, d.values) if isinstance(k, ast.Constant) and isinstance(k.value, str) and k.value.endswith("_name")]
+                        elif isinstance(d, ast.keyword) and d.arg and d.arg.endswith("_name"):
+                            inner.append(d.value)
+                    for v in inner:
+                        if isinstance(v, ast.Name) and v.id in pn:
+                            i = pn.index(v.id)
+                            a = call.args[i] if i < len(call.args) else next((k.value for k in call.keywords if k.arg == v.id), None)
+                            if a is not None:
+                                naming.append(a)
+                        else:
+                            naming.append(v)
+    if not naming:
         raise AnalysisError("ALL-PAIR: cannot find the expression that names the emitted definition (a `*_name` argument of the emitter)")
     want = dump(_resolve_single_def(app.args[0], scopes))
     got = [dump(_resolve_single_def(x, scopes)) for x in naming]
